@@ -1,4 +1,4 @@
-/* linked into every in-crate harness by bin/kdrive.py (Kani: -Z c-ffi) */
+/* linked into the in-crate harnesses (default mode) by bin/kdrive.py (Kani: -Z c-ffi) */
 #include <stdint.h>
 uint64_t __CPROVER_uninterpreted_mix(uint64_t s, uint64_t a, uint64_t b);
 uint64_t uf_mix(uint64_t s, uint64_t a, uint64_t b) { return __CPROVER_uninterpreted_mix(s, a, b); }
